@@ -349,6 +349,7 @@ LEVEL_TEXT = (
     "(each massive NC kernel empty at every order iff the threshold is closed, incl. the local term of the O(a_s^2) non-singlet), integrand (regular parts exactly 0.0 beyond the partonic threshold), "
     "operator (rows of non-heavy partons exactly 0.0; light result identical to the run with the quark decoupled). For CC the reference computes xi = x(1+m2/Q2) itself, demands that kernels sit there, "
     "that the operator equals the reference convolution at xi and vanishes for xi >= 1."
+    " Cards whose mass reference scales Qm differ from the masses (or are absent) are part of the lattice, and some kernel of the list must carry the card's mass / rescaling factor."
 )
 LEVEL_NOTE = "Trusted: fractions.Fraction for the exact threshold decision, ref_conv/ref_basis for the CC operator. Masses other than 1.5/4.5, other grids and N3LO are not covered."
 TECHNIQUE = "bounded-exhaustive enumeration of boundary states (exact / ulp / 1e-9 neighbours of kinematic thresholds) with an independent threshold reference at kernel, integrand and operator level"
